@@ -49,6 +49,12 @@ def run_shard(shard, tier, seed, wd, res):
         s.op("pairing", a_, b_)
         s.op("pair_with_12", a_, b_)
         s.op("pair_with_21", b_, a_)
+    # identities given as projective values with non-trivial X, Y (Z = 0), converted by the library
+    Oj1 = V.proj(1, *G.identity_rep(1, G.rand_fe(1, rng)))
+    Oj2 = V.proj(2, *G.identity_rep(2, G.rand_fe(2, rng)))
+    s.op("pairing_p", Oj1, s.op("g2.to_proj", Q0))
+    s.op("pairing_p", s.op("g1.to_proj", P0), Oj2)
+    s.op("pair_with_21", s.op("g2.to_affine", Oj2), P0)
     n = 4 if tier == "quick" else 8
     for j in range(n):
         if j < 2 or rng.random() < 0.4:
